@@ -136,7 +136,8 @@ func mcWorlds(family string) []Scenario {
 	var pre [][]sut.Event
 	switch family {
 	case "remember":
-		pre = [][]sut.Event{{{Act: "LoginPost", B: "b1", Pid: "u1", Pw: 1, Rm: true}, {Act: "DropSession", B: "b1"}}}
+		pre = [][]sut.Event{{{Act: "LoginPost", B: "b1", Pid: "u1", Pw: 1, Rm: true}, {Act: "DropSession", B: "b1"}},
+			{{Act: "LoginPost", B: "b1", Pid: "u1", Pw: 1, Rm: true}, {Act: "DropSession", B: "b1"}, {Act: "LoginPost", B: "b2", Pid: "u2", Pw: 2}}}
 	case "expire":
 		pre = [][]sut.Event{{{Act: "LoginPost", B: "b1", Pid: "u1", Pw: 1}}}
 	case "recover":
@@ -240,7 +241,8 @@ func mcEvents(family string, c sut.Config, o sut.Obs, iss map[string]int) []sut.
 	case "remember":
 		for _, b := range b12 {
 			for _, p := range []string{"u1", "u2"} {
-				for _, w := range []int{1, -1} {
+				own := map[string]int{"u1": 1, "u2": 2}[p]
+				for _, w := range []int{own, -1} {
 					for _, r := range []bool{false, true} {
 						ev(sut.Event{Act: "LoginPost", B: b, Pid: p, Pw: w, Rm: r})
 					}
